@@ -18,6 +18,9 @@ Oracles (none of them shares code with cherab):
   field           Solov'ev: b_field == (-psi_Z/r, F/r, psi_R/r) of the analytic psi within SAFETY x the computed
                   np.gradient + bicubic bound (vf/solovev_c12.py); bundled grids: orientation only (cos >= 0.8 against
                   central differences of the public psi interpolant where |B_pol| >= 0.3 max, >= 2 cells from the edge).
+  *_special       the 3-D mappings are also evaluated at exact special positions (signed zeros, half-axes, diagonals,
+                  subnormal / tiny coordinate) and judged against the 2-D result rotated by atan2(y, x) (own rotation; the
+                  -pi branch for y = -0.0, x < 0 is the same rotation as +pi).
   vec2d / vec3d   map_vector2d has components (v_tor, v_pol, v_nor)(psi_n) along (t, p, n) inside, equals the outside
                   vector elsewhere; map_vector3d is that vector rotated by the toroidal angle of the point (own rotation).
 """
@@ -36,9 +39,10 @@ RULE = ("one case = one equilibrium (bundled example, Generomak, or a synthetic 
         "20..65 x 20..65 grid with random shape, either sign of psi_lcfs - psi_axis, optional axis-value offset that makes "
         "the clamp decisive, LCFS polygon of 8..120 vertices scaled 0.9..1.06 about the axis) x one scalar profile and three "
         "velocity profiles (Python callables, Function1D algebra, Function1D interpolators, 2xN lists/arrays; either sign, "
-        "amplitudes 1e-2..1e4) x outside value (default / 0 / +-x / vector) x ~90 points (uniform, near axis, within "
+        "amplitudes 1e-2..1e4) x outside value (default / 0 / +-x / vector) x ~82 points (uniform, near axis, within "
         "3e-6..3e-2 of LCFS polygon edges and of psi_n = 1, private-flux / x-point region, grid nodes, outer cell ring, boundary lines and corners, "
-        "inside LCFS) each with two toroidal angles; a case is non-trivial when inside-LCFS and outside-LCFS map "
+        "inside LCFS) each with two toroidal angles, plus 28 exact special 3-D positions per case (y = +-0.0 with x of either "
+        "sign, x = +-0.0 with y of either sign, exact 45-degree diagonals, one coordinate subnormal / 1e-300 / 1e-17 r); a case is non-trivial when inside-LCFS and outside-LCFS map "
         "comparisons and basis checks were all evaluated; distinct = distinct full case descriptors")
 LEVEL_TEXT = ("Exploration by runtime invariant monitoring over sampled fields: the real EFITEquilibrium objects are driven "
               "with generated profiles/points and every returned value is compared with the composition the statement "
@@ -61,12 +65,14 @@ THOROUGH = dict(cases=30000, workers=16, timecap=600)
 REQUIRED = {"psin_nonneg": 20000, "psin_clamp_decisive": 20, "psin_def": 20000, "psi_nodes": 1000, "psi_analytic": 5000,
             "lcfs_mask": 20000, "map2d_inside": 4000, "map2d_outside": 4000, "map3d": 8000, "map3d_phi": 2000,
             "basis": 20000, "b_normal": 20000, "field_analytic": 5000, "field_orientation": 1000,
-            "vec2d_inside": 4000, "vec2d_outside": 4000, "vec3d": 8000, "pts_private_flux": 100,
+            "vec2d_inside": 4000, "vec2d_outside": 4000, "vec3d": 8000, "map3d_special": 3000, "vec3d_special": 9000,
+            "pts3d_y0": 400, "pts3d_x0": 400, "pts3d_diag": 400, "pts3d_y_subnormal": 400, "pts3d_x_subnormal": 400,
+            "pts3d_tiny": 800, "pts_private_flux": 100,
             "pts_polygon_inside_psin_gt_1": 30}
 
 SAFETY = 8.0          # factor on the computed discretisation bounds (their constants are worst-case estimates)
 EDGE_EXCL = 1e-6      # undecidable band around LCFS polygon edges / psi_n = 1
-NPTS = 90
+NPTS = 82
 COS_MIN = 0.8        # orientation only: np.gradient-vs-interpolant deviations reach 11 % of max|B_pol| (asin(0.11/0.3) = 21 deg)
 
 _CACHE = {}
@@ -247,6 +253,39 @@ def _gen_points(rng, G, n):
     return pts
 
 
+def _gen_special3d(rng, pts):
+    """Exact special (x, y) positions for the 3-D mappings, built from four (r, z) of the case: y == +-0.0 with x of either
+    sign, x == +-0.0 with y of either sign (the four exact half-axes with both signed zeros), the four 45-degree diagonals
+    (|x| == |y| exactly), and points with one subnormal / tiny coordinate.  All 28 configurations occur in every case."""
+    cand_in = [i for i, p in enumerate(pts) if p[4] == "inside"]
+    cand_other = [i for i, p in enumerate(pts) if p[4] not in ("inside", "boundary")]
+    idx = list(rng.choice(cand_in, 2, replace=False)) + list(rng.choice(cand_other, 2, replace=False))
+    sub = 5e-324
+    types = [("y0", 1, 0.0, 0), ("y0", 1, -0.0, 0), ("y0", -1, 0.0, 0), ("y0", -1, -0.0, 0),
+             ("x0", 0.0, 1, 1), ("x0", -0.0, 1, 1), ("x0", 0.0, -1, 1), ("x0", -0.0, -1, 1),
+             ("diag", 1, 1, 2), ("diag", -1, 1, 2), ("diag", 1, -1, 2), ("diag", -1, -1, 2),
+             ("y_subnormal", 1, sub, 0), ("y_subnormal", 1, -sub, 0), ("y_subnormal", -1, sub, 0), ("y_subnormal", -1, -sub, 0),
+             ("x_subnormal", sub, 1, 1), ("x_subnormal", -sub, 1, 1), ("x_subnormal", sub, -1, 1), ("x_subnormal", -sub, -1, 1),
+             ("tiny", -1, 1e-300, 0), ("tiny", -1, -1e-300, 0), ("tiny", 1e-300, -1, 1), ("tiny", -1e-300, 1, 1),
+             ("tiny", -1, 1e-17, 3), ("tiny", -1, -1e-17, 3), ("tiny", 1, 1e-200, 0), ("tiny", -1e-200, -1, 1)]
+    order = rng.permutation(len(types))
+    out = []
+    for j, ti in enumerate(order):
+        lab, a_, b_, mode = types[int(ti)]
+        r, z = pts[int(idx[j % 4])][0], pts[int(idx[j % 4])][1]
+        if mode == 0:        # x = +-r, y special
+            x, y = a_ * r, b_
+        elif mode == 1:      # y = +-r, x special
+            x, y = a_, b_ * r
+        elif mode == 2:      # exact diagonal
+            d = r / math.sqrt(2.0)
+            x, y = a_ * d, b_ * d
+        else:                # y tiny relative to r
+            x, y = a_ * r, b_ * r
+        out.append([float(x), float(y), float(z), lab])
+    return out
+
+
 def gen_case(rng, tier):
     u = rng.random()
     if u < 0.2:
@@ -262,7 +301,9 @@ def gen_case(rng, tier):
     vel = dict(tor=_gen_profile(rng, vamp), pol=_gen_profile(rng, vamp * 10 ** rng.uniform(-2, 0)),
                nor=_gen_profile(rng, vamp * 10 ** rng.uniform(-3, 0)),
                outside=None if rng.random() < 0.4 else [float(v) for v in vamp * rng.normal(size=3)])
-    return dict(eq=eq, profile=_gen_profile(rng), outside=outside, vel=vel, points=_gen_points(rng, G, NPTS))
+    prof = _gen_profile(rng)
+    pts = _gen_points(rng, G, NPTS)
+    return dict(eq=eq, profile=prof, outside=outside, vel=vel, points=pts, special3d=_gen_special3d(rng, pts))
 
 
 def fixed_cases(tier):
@@ -288,8 +329,9 @@ def fixed_cases(tier):
         vamp = 1e3
         vel = dict(tor=_gen_profile(rng, vamp), pol=_gen_profile(rng, -0.1 * vamp), nor=_gen_profile(rng, 0.01 * vamp),
                    outside=None if k % 2 else [10.0, -20.0, 30.0])
+        pts = _gen_points(rng, G, NPTS)
         out.append(core.jsonable(dict(eq=eq, profile=prof, outside=[None, 0.0, -7.5, 250.0][k % 4], vel=vel,
-                                      points=_gen_points(rng, G, NPTS))))
+                                      points=pts, special3d=_gen_special3d(rng, pts))))
     return out
 
 
@@ -455,7 +497,13 @@ def _run(case, ctx):
         for ph in (ph1, ph2):
             x, y = r * math.cos(ph), r * math.sin(ph)
             rows.append((math.sqrt(x * x + y * y), z, math.atan2(y, x), x, y, ip))
+    nreg = len(rows)
+    spec = case.get("special3d", [])
+    for x, y, z, lab in spec:                                   # exact coordinates, used as stored (signed zeros, subnormals)
+        rows.append((math.sqrt(x * x + y * y), z, math.atan2(y, x), x, y, None))
+        ctx.mon("pts3d_" + lab)
     n = len(rows)
+    is_spec = np.arange(n) >= nreg
     R = np.array([w[0] for w in rows])
     Z = np.array([w[1] for w in rows])
     PHI = np.array([w[2] for w in rows])
@@ -524,7 +572,7 @@ def _run(case, ctx):
               "psi_normalised differs from max(0, (psi - psi_axis)/(psi_lcfs - psi_axis)) of the public psi interpolant",
               atol=tol_def, monitor="psin_def")
     # exact node values
-    nodes = [k for k, w in enumerate(rows) if pts[w[5]][4] == "node" and not is3[k]]
+    nodes = [k for k, w in enumerate(rows) if w[5] is not None and pts[w[5]][4] == "node" and not is3[k]]
     if nodes:
         ir = [int(np.argmin(np.abs(G["r"] - R[k]))) for k in nodes]
         iz = [int(np.argmin(np.abs(G["z"] - Z[k]))) for k in nodes]
@@ -591,12 +639,19 @@ def _run(case, ctx):
         ctx.close(s2[so], np.full(int(so.sum()), out_val), "map2d:outside-not-outside-value",
                   "map2d outside the LCFS differs from value_outside_lcfs", atol=1e-12 * pscale, monitor="map2d_outside",
                   profile_kind=prof["kind"], eq=eqcls)
-    m = is3 & dec3 & ok_s2 & ok_s3
+    m = is3 & dec3 & ok_s2 & ok_s3 & ~is_spec
     if m.any():
         ctx.close(s3[m], s2[m], "map3d:not-axisymmetric-extension-of-map2d",
                   "map3d(x, y, z) differs from map2d(sqrt(x^2+y^2), z)", rtol=1e-11, atol=1e-11 * pscale, monitor="map3d", eq=eqcls)
+    m = is3 & dec3 & ok_s2 & ok_s3 & is_spec
+    if m.any():
+        k0 = int(np.argmax(m))
+        ctx.close(s3[m], s2[m], "map3d:exact-special-point-not-axisymmetric-extension-of-map2d",
+                  "map3d at an exact special point (signed-zero / subnormal coordinate, half-axis, diagonal) differs from "
+                  "map2d(sqrt(x^2+y^2), z)", rtol=1e-11, atol=1e-11 * pscale, monitor="map3d_special", eq=eqcls,
+                  first_xy=[rows[k0][3], rows[k0][4]])
     # same (r, z), two toroidal angles
-    a1 = np.arange(1, n, 3)
+    a1 = np.arange(1, nreg, 3)
     a2 = a1 + 1
     mm = dec3[a1] & dec3[a2] & ok_s3[a1] & ok_s3[a2]
     if mm.any():
@@ -684,14 +739,21 @@ def _run(case, ctx):
     if vo_sel.any():
         ctx.close(V2[vo_sel], np.tile(vo, (int(vo_sel.sum()), 1)), "map_vector2d:outside-not-outside-value",
                   "map_vector2d outside the LCFS differs from value_outside_lcfs", atol=1e-12 * vs, monitor="vec2d_outside", eq=eqcls)
-    m = is3 & dec3 & ok_V2 & ok_V3
-    if m.any():
+    for m, key, what, mon in (
+            (is3 & dec3 & ok_V2 & ok_V3 & ~is_spec, "map_vector3d:not-2d-vector-rotated-by-toroidal-angle",
+             "(radial, toroidal, vertical) components of map_vector3d at toroidal angle phi differ from map_vector2d at (sqrt(x^2+y^2), z)", "vec3d"),
+            (is3 & dec3 & ok_V2 & ok_V3 & is_spec, "map_vector3d:exact-special-point-not-2d-vector-rotated-by-atan2(y,x)",
+             "at an exact special point (signed-zero / subnormal coordinate, half-axis, diagonal) map_vector3d is not map_vector2d at "
+             "(sqrt(x^2+y^2), z) rotated by the toroidal angle atan2(y, x)", "vec3d_special")):
+        if not m.any():
+            continue
         c, s = np.cos(PHI[m]), np.sin(PHI[m])
         g = V3[m]
         cyl = np.stack([g[:, 0] * c + g[:, 1] * s, -g[:, 0] * s + g[:, 1] * c, g[:, 2]], axis=1)
         vmag = np.linalg.norm(V2[m], axis=1)[:, None]
-        ctx.close(cyl, V2[m], "map_vector3d:not-2d-vector-rotated-by-toroidal-angle",
-                  "(radial, toroidal, vertical) components of map_vector3d at toroidal angle phi differ from map_vector2d at (sqrt(x^2+y^2), z)",
-                  atol=1e-11 * (vs + vmag), monitor="vec3d", eq=eqcls)
+        bad = np.abs(cyl - V2[m]).max(axis=1) > (1e-11 * (vs + vmag))[:, 0]
+        kb = np.flatnonzero(m)[int(np.argmax(bad))] if bad.any() else int(np.argmax(m))
+        ctx.close(cyl, V2[m], key, what, atol=1e-11 * (vs + vmag), monitor=mon, eq=eqcls,
+                  first_bad_xyz=[rows[kb][3], rows[kb][4], rows[kb][1]], phi=float(PHI[kb]))
     if si.any() and so.any() and nz.any():
         ctx.nontrivial()
